@@ -293,6 +293,8 @@ FIXED = [
     ("${var s = 'inputs.z is text'; return inputs.a;}", True), ("${/* inputs.z */ return inputs.a; // inputs.z\n}", True),
     ("${return (function(){return inputs.a;})();}", True), ("${function f(x){ function g(){ return inputs.a; } return g() + x; } return f(inputs.b);}", True),
     ("${var inputs2 = {a:1}; return inputs2.a + inputs.b;}", True), ("${if (inputs.a) {return inputs.b;} return inputs['z'];}", True),
+    ("${ function pick(l){ var n = l.map(function(inputs){return inputs.name;}); return n.concat(inputs.b);} return pick(inputs.arr); }", True),
+    ("${var y; y = inputs; function pk(l){ var q = l.map(function(y){return y.nm;}); return q.concat([y.k, inputs['z']]); } return pk(inputs.arr);}", True),
     ("${return inputs .a + inputs\n.b + inputs [ 'k' ];}", True), ("${return inputs.arr.map(function(e){return e + inputs.b;});}", True),
 ]
 
